@@ -35,7 +35,24 @@ pub struct Fault {
 #[derive(Clone, Debug, Serialize, Deserialize)]
 #[serde(tag = "a")]
 pub enum LAct {
-    Write { big: bool },
+    /// key: a key-only sample (dispose by serialized key; `big`: a key longer than the fragment size)
+    Write {
+        big: bool,
+        #[serde(default)]
+        key: bool,
+        /// > 0: a sample of exactly that many fragments (needs big)
+        #[serde(default)]
+        nf: usize,
+    },
+    /// the network is down while n samples are written: every pushed datagram is lost.  From a model with window
+    /// size `win` the size comes as q windows + r; it is replayed at the window size of the code (256).
+    Outage {
+        n: usize,
+        #[serde(default)]
+        q: usize,
+        #[serde(default)]
+        r: usize,
+    },
     /// heartbeat tick, then deliver everything in flight (faults apply), fire repair timers, deliver
     Round,
     /// cache cleaning on the writer
@@ -56,6 +73,62 @@ pub struct LRunSpec {
     /// samples written before the reader is matched; the reader does not request history, so it is owed a GAP for them
     #[serde(default)]
     pub pre: usize,
+    /// window size (sequence numbers one ACKNACK can span) of the model that generated the run; 0 / 256 = as the code
+    #[serde(default)]
+    pub win: usize,
+    /// a slow link: before the k-th datagram writer -> reader is delivered, delays[k] milliseconds pass on the virtual
+    /// clock behind `Timestamp::now()` (the last entry goes on for ever; empty = no time passes at all)
+    #[serde(default)]
+    pub delays: Vec<u32>,
+}
+
+/// numbers one ACKNACK / GAP bitmap can span (RTPS 8.3.5.5)
+pub const WIN: usize = 256;
+
+impl LRunSpec {
+    /// size of an outage on the real link
+    fn outage_size(&self, n: usize, q: usize, r: usize) -> usize {
+        if self.win == 0 || self.win == WIN {
+            n
+        } else {
+            // r = win-1 is "one short of a full window"; small remainders stay what they are
+            q * WIN + if r + 1 == self.win { WIN - 1 } else { r }
+        }
+    }
+
+    /// (model sn range, real sn range) per act that writes, for fault addresses of a scaled run
+    fn sn_map(&self) -> Vec<(i64, i64, i64, i64)> {
+        let (mut m, mut r) = (self.pre as i64, self.pre as i64);
+        let mut out = vec![(1, m, 1, r)];
+        for a in &self.acts {
+            match a {
+                LAct::Write { .. } => {
+                    out.push((m + 1, m + 1, r + 1, r + 1));
+                    m += 1;
+                    r += 1;
+                }
+                LAct::Outage { n, q, r: rem } => {
+                    let real = self.outage_size(*n, *q, *rem) as i64;
+                    out.push((m + 1, m + *n as i64, r + 1, r + real));
+                    m += *n as i64;
+                    r += real;
+                }
+                _ => {}
+            }
+        }
+        out.push((m + 1, m + 1_000_000, r + 1, r + 1_000_000));
+        out
+    }
+
+    fn real_sn(map: &[(i64, i64, i64, i64)], sn: i64) -> i64 {
+        for (ml, mh, rl, rh) in map {
+            if sn >= *ml && sn <= *mh {
+                // nearer end of the range keeps its distance
+                return if sn - ml <= mh - sn { rl + (sn - ml) } else { rh - (mh - sn) };
+            }
+        }
+        sn
+    }
 }
 
 struct Link {
@@ -67,6 +140,11 @@ struct Link {
     faults: Vec<Fault>,
     seen: HashMap<(String, String, i64, u32), u32>,
     written: HashMap<i64, Vec<u8>>,
+    kinds: HashMap<i64, &'static str>,
+    outage: bool,
+    delays: Vec<u32>,
+    n_wr: usize,
+    now_ms: u64,
     nfrags: HashMap<i64, u32>,
     handed: Vec<i64>,
     bytes_bad: Vec<i64>,
@@ -132,6 +210,12 @@ impl Link {
             None => return,
         };
         let (k, sn, f) = primary(dir, &bytes);
+        if dir == "wr" && !self.delays.is_empty() {
+            let d = self.delays[std::cmp::min(self.n_wr, self.delays.len() - 1)];
+            self.n_wr += 1;
+            self.now_ms += d as u64;
+            rustdds::verif::clock::advance_ts_local(std::time::Duration::from_millis(d as u64));
+        }
         let key = (dir.to_string(), k.clone(), sn, f);
         let occ = {
             let e = self.seen.entry(key).or_insert(0);
@@ -139,7 +223,7 @@ impl Link {
             *e
         };
         let at = Addr { dir: dir.into(), k: k.clone(), sn, f, occ };
-        let fate = self.faults.iter().find(|x| x.at == at).map(|x| x.what.clone()).unwrap_or_else(|| "ok".into());
+        let fate = if self.outage { "drop".to_string() } else { self.faults.iter().find(|x| x.at == at).map(|x| x.what.clone()).unwrap_or_else(|| "ok".into()) };
         self.round_traffic.push(format!("{dir}:{k}"));
         if fate != "ok" {
             self.round_faults += 1;
@@ -151,7 +235,7 @@ impl Link {
             Some(x) => x,
             None => (0, 0, 0),
         };
-        self.log.push(json!({"ev":"Dgram","dir":dir,"k":k,"sn":sn,"f":f,"occ":occ,"fate":fate,"size":size,"fsz":fsz,"plen":plen}));
+        self.log.push(json!({"ev":"Dgram","dir":dir,"k":k,"sn":sn,"f":f,"occ":occ,"fate":fate,"size":size,"fsz":fsz,"plen":plen,"t":self.now_ms}));
         match fate.as_str() {
             "drop" => {}
             "swap" => {
@@ -183,7 +267,7 @@ impl Link {
 
     fn deliver_all(&mut self) {
         let mut n = 0;
-        while (!self.wr.is_empty() || !self.rw.is_empty()) && n < 5000 {
+        while (!self.wr.is_empty() || !self.rw.is_empty()) && n < 5000 + 8 * self.written.len() {
             if !self.wr.is_empty() {
                 self.deliver_one("wr");
             } else {
@@ -197,7 +281,7 @@ impl Link {
         let mut n = 0;
         loop {
             let p = self.w.proxy(self.reader_guid);
-            if !(p.present && (p.repair_mode || p.frags_requested)) || n > 300 {
+            if !(p.present && (p.repair_mode || p.frags_requested)) || n > 300 + 2 * self.written.len() {
                 break;
             }
             if p.repair_mode {
@@ -228,6 +312,71 @@ impl Link {
         }
     }
 
+    /// What the Reader put into its history cache (TopicCache), compared with what was given to the Writer: kind and
+    /// bytes including the encapsulation header.  This is where a key-only sample keeps all of its bytes (the
+    /// DataReader turns it into a key value).  An unfragmented DATA payload may carry up to 3 bytes of padding.
+    fn check_cache(&mut self) {
+        for (sn, kind, bytes) in self.r.cache_entries(0, WRITER_GUID) {
+            let want = match self.written.get(&sn) {
+                Some(w) => w,
+                None => continue,
+            };
+            let want_kind = self.kinds.get(&sn).copied().unwrap_or("data");
+            let fragmented = self.nfrags.get(&sn).copied().unwrap_or(0) > 0;
+            let same = if fragmented {
+                bytes == *want
+            } else {
+                bytes.len() >= want.len() && bytes.len() < want.len() + 4 && bytes[..want.len()] == want[..] && bytes[want.len()..].iter().all(|b| *b == 0)
+            };
+            if !(same && kind == want_kind) && !self.bytes_bad.contains(&sn) {
+                self.bytes_bad.push(sn);
+            }
+        }
+    }
+
+    /// one application write (a value, or a dispose by key) through the real command channel; what the writer pushes is queued
+    fn write(&mut self, big: bool, key: bool, pre: bool, nf_req: usize) {
+        let sn = self.written.len() as i64 + 1;
+        if nf_req > 1 && !key {
+            // a value of exactly nf_req fragments (total size with header: a short last fragment)
+            let total = nf_req * self.frag - (sn as usize % (self.frag / 2));
+            let body: Vec<u8> = (0..total - 16).map(|i| (i as u64 * 17 + sn as u64 * 3 + 1) as u8).collect();
+            let full = wire::vsample_payload((sn % 3) as u32, 1000 + sn as u32, &body);
+            let (_sn, sent) = self.w.write(full[4..].to_vec(), None, Some(5000 + sn as u32));
+            self.nfrags.insert(sn, nf_req as u32);
+            self.kinds.insert(sn, "data");
+            self.written.insert(sn, full);
+            self.log.push(json!({"ev":"Write","sn":sn,"big":true,"key":false,"nfrags":nf_req,"lost":self.outage}));
+            self.enqueue("wr", sent);
+            self.deliver_all();
+            return;
+        }
+        let (full, sent) = if key {
+            let k = key_of(sn, big, self.frag);
+            let mut full = vec![0, 1, 0, 0];
+            full.extend_from_slice(&k);
+            let (_sn, sent) = self.w.write_dispose(k, Some(5000 + sn as u32));
+            (full, sent)
+        } else {
+            let value = value_of(sn, big, self.frag);
+            let mut full = vec![0, 1, 0, 0];
+            full.extend_from_slice(&value);
+            let (_sn, sent) = self.w.write(value, None, Some(5000 + sn as u32));
+            (full, sent)
+        };
+        let nf = if full.len() > self.frag && !pre { ((full.len() + self.frag - 1) / self.frag) as u32 } else { 0 };
+        self.nfrags.insert(sn, nf);
+        self.kinds.insert(sn, if key { "key" } else { "data" });
+        self.written.insert(sn, full);
+        if pre {
+            self.log.push(json!({"ev":"Write","sn":sn,"big":false,"nfrags":0,"pre":true}));
+        } else {
+            self.log.push(json!({"ev":"Write","sn":sn,"big":big,"key":key,"nfrags":nf,"lost":self.outage}));
+        }
+        self.enqueue("wr", sent);
+        self.deliver_all();
+    }
+
     fn round(&mut self, scripted: bool) {
         self.round_traffic.clear();
         self.round_faults = 0;
@@ -238,6 +387,7 @@ impl Link {
         self.fire_timers();
         self.deliver_all();
         self.take();
+        self.check_cache();
         let p = self.w.proxy(self.reader_guid);
         let (first, last) = self.w.first_last();
         let _ = first;
@@ -255,6 +405,18 @@ impl Link {
     }
 }
 
+/// serialized key (without encapsulation header) of a key-only sample: the u32 key of VSample, and for a key that has
+/// to be fragmented position-dependent bytes after it (what a key holding a long string looks like); total sizes
+/// (with the header) around multiples of the fragment size, among them remainders of 1..4 bytes
+pub fn key_of(sn: i64, big: bool, frag: usize) -> Vec<u8> {
+    let mut k = ((sn % 3) as u32).to_le_bytes().to_vec();
+    if big {
+        let total = [2 * frag + 1, 2 * frag + 4, 3 * frag, 2 * frag + frag / 2, frag + 2, 3 * frag - 1, 4 * frag + 3, 2 * frag][sn as usize % 8];
+        k.extend((0..total - 8).map(|i| (i as u64 * 13 + sn as u64 * 5 + 1) as u8));
+    }
+    k
+}
+
 pub fn run_one(run_no: usize, spec: &LRunSpec, out: &mut Vec<Value>) -> Vec<Vec<u8>> {
     let wcfg = WriterCfg { reliable: true, history: if spec.hist == 0 { Some(None) } else { Some(Some(spec.hist)) }, transient_local: Some(true), frag_size: Some(spec.frag) };
     let w = WriterRig::new(&wcfg, WRITER_GUID);
@@ -262,42 +424,37 @@ pub fn run_one(run_no: usize, spec: &LRunSpec, out: &mut Vec<Value>) -> Vec<Vec<
     let mut reader_guid = [0u8; 16];
     reader_guid[0..12].copy_from_slice(&r.own_prefix);
     reader_guid[12..16].copy_from_slice(&r.slots[0].entity_id);
+    // fault addresses of a run generated at another window size: sequence numbers carried over to the real numbering
+    let mut faults = spec.faults.clone();
+    if spec.win != 0 && spec.win != WIN {
+        let map = spec.sn_map();
+        for f in faults.iter_mut() {
+            f.at.sn = LRunSpec::real_sn(&map, f.at.sn);
+        }
+    }
     let mut l = Link {
-        w, r, reader_guid, wr: VecDeque::new(), rw: VecDeque::new(), faults: spec.faults.clone(), seen: HashMap::new(),
-        written: HashMap::new(), nfrags: HashMap::new(), handed: vec![], bytes_bad: vec![], frag: spec.frag, pre: 0,
+        w, r, reader_guid, wr: VecDeque::new(), rw: VecDeque::new(), faults, seen: HashMap::new(),
+        written: HashMap::new(), kinds: HashMap::new(), outage: false, delays: spec.delays.clone(), n_wr: 0, now_ms: 0, nfrags: HashMap::new(), handed: vec![], bytes_bad: vec![], frag: spec.frag, pre: 0,
         round_traffic: vec![], round_faults: 0, captured: vec![], log: vec![],
     };
+    rustdds::verif::clock::reset_ts_local();
     l.log.push(json!({"ev":"Reset","run":run_no,"hist":spec.hist,"frag":spec.frag,"pre":spec.pre}));
     // the writer's life before the match: nobody to send to
     for _ in 0..spec.pre {
-        let sn = l.written.len() as i64 + 1;
-        let value = value_of(sn, false, l.frag);
-        let mut full = vec![0, 1, 0, 0];
-        full.extend_from_slice(&value);
-        l.nfrags.insert(sn, 0);
-        l.written.insert(sn, full);
-        let (_sn, sent) = l.w.write(value, None, Some(5000 + sn as u32));
-        l.log.push(json!({"ev":"Write","sn":sn,"big":false,"nfrags":0,"pre":true}));
-        l.enqueue("wr", sent);
-        l.deliver_all();
+        l.write(false, false, true, 0);
     }
     l.pre = spec.pre as i64;
     l.w.match_reader(reader_guid, true, 21_001);
     l.r.match_writer(0, WRITER_GUID, true, 21_900);
     for a in &spec.acts {
         match a {
-            LAct::Write { big } => {
-                let sn = l.written.len() as i64 + 1;
-                let value = value_of(sn, *big, l.frag);
-                let mut full = vec![0, 1, 0, 0];
-                full.extend_from_slice(&value);
-                let nf = if full.len() > l.frag { ((full.len() + l.frag - 1) / l.frag) as u32 } else { 0 };
-                l.nfrags.insert(sn, nf);
-                l.written.insert(sn, full);
-                let (_sn, sent) = l.w.write(value, None, Some(5000 + sn as u32));
-                l.log.push(json!({"ev":"Write","sn":sn,"big":big,"nfrags":nf}));
-                l.enqueue("wr", sent);
-                l.deliver_all();
+            LAct::Write { big, key, nf } => l.write(*big, *key, false, *nf),
+            LAct::Outage { n, q, r } => {
+                l.outage = true;
+                for _ in 0..spec.outage_size(*n, *q, *r) {
+                    l.write(false, false, false, 0);
+                }
+                l.outage = false;
             }
             LAct::Round => l.round(true),
             LAct::Clean => {
@@ -311,14 +468,16 @@ pub fn run_one(run_no: usize, spec: &LRunSpec, out: &mut Vec<Value>) -> Vec<Vec<
             }
         }
     }
-    for _ in 0..spec.rounds_after {
+    // "a bounded number of rounds": one more for every full window of numbers (see KB in RtpsLink.tla)
+    for _ in 0..spec.rounds_after + l.written.len() / WIN {
         l.round(false);
     }
+    rustdds::verif::clock::reset_ts_local();
     out.append(&mut l.log);
     std::mem::take(&mut l.captured)
 }
 
-pub fn random_run(rng: &mut StdRng, n_events: usize) -> LRunSpec {
+pub fn random_run(rng: &mut StdRng, rng2: &mut StdRng, n_events: usize) -> LRunSpec {
     let frag = [64usize, 64, 48, 1024][rng.gen_range(0..4)];
     let hist = if rng.gen_bool(0.7) { 0 } else { rng.gen_range(1..6) };
     let mut acts = vec![];
@@ -328,7 +487,8 @@ pub fn random_run(rng: &mut StdRng, n_events: usize) -> LRunSpec {
         let x = rng.gen_range(0..100);
         if x < 60 {
             let big = rng.gen_bool(0.3);
-            acts.push(LAct::Write { big });
+            // (second generator: the key-only dimension was added later and leaves the other choices as they were)
+            acts.push(LAct::Write { big, key: rng2.gen_bool(0.2), nf: 0 });
             sn += 1;
             // faults on the push of this sample
             if big {
@@ -375,10 +535,149 @@ pub fn random_run(rng: &mut StdRng, n_events: usize) -> LRunSpec {
             faults.push(Fault { at: Addr { dir: "wr".into(), k: "GAP".into(), sn: 1, f: 0, occ: rng.gen_range(1..3) }, what: if rng.gen_bool(0.7) { "drop".into() } else { "dup".into() } });
         }
     }
-    LRunSpec { hist, frag, acts, faults, rounds_after: 7, pre }
+    LRunSpec { hist, frag, acts, faults, rounds_after: 7, pre, win: 0, delays: vec![] }
+}
+
+/// Long runs, far beyond the bound of the model: hundreds of samples, with loss patterns whose extent is around the
+/// number of sequence numbers one ACKNACK can name (WIN = 256): an outage of about one, two or more windows, or two lost
+/// samples (and some in between) exactly WIN-1 / WIN / WIN+1 apart.  Judged by the same convergence clause.
+pub fn random_long_run(rng: &mut StdRng) -> LRunSpec {
+    let frag = [64usize, 1024][rng.gen_range(0..2)];
+    let mut acts = vec![];
+    let mut faults = vec![];
+    let mut sn = 0i64;
+    let pre = if rng.gen_bool(0.25) { [3usize, 255, 256, 257, 300][rng.gen_range(0..5)] } else { 0 };
+    let drop = |faults: &mut Vec<Fault>, k: &str, sn: i64, f: u32, occ: u32| faults.push(Fault { at: Addr { dir: "wr".into(), k: k.into(), sn, f, occ }, what: "drop".into() });
+    // some samples get through first (and are acknowledged)
+    for _ in 0..rng.gen_range(0..3) {
+        acts.push(LAct::Write { big: rng.gen_bool(0.2), key: rng.gen_bool(0.2), nf: 0 });
+        sn += 1;
+    }
+    if sn > 0 && rng.gen_bool(0.7) {
+        acts.push(LAct::Round);
+    }
+    let around = |rng: &mut StdRng| -> usize {
+        let w = [1usize, 1, 1, 2, 2, 3][rng.gen_range(0..6)] * WIN;
+        (w as i64 + [-2i64, -1, 0, 0, 1, 2, 44][rng.gen_range(0..7)]) as usize
+    };
+    match rng.gen_range(0..3) {
+        0 => {
+            // outage
+            let n = around(rng);
+            acts.push(LAct::Outage { n, q: 0, r: 0 });
+            sn += n as i64;
+        }
+        1 => {
+            // the first and the last sample of a stretch are lost (and a few in between), the others arrive
+            let n = around(rng);
+            for i in 0..n {
+                let big = rng.gen_bool(0.02);
+                acts.push(LAct::Write { big, key: rng.gen_bool(0.05), nf: 0 });
+                sn += 1;
+                if i == 0 || i == n - 1 || rng.gen_bool(0.02) {
+                    if big {
+                        drop(&mut faults, "FRAG", sn + pre as i64, rng.gen_range(1..=2), 1);
+                    } else {
+                        drop(&mut faults, "DATA", sn + pre as i64, 0, 1);
+                    }
+                }
+            }
+        }
+        _ => {
+            // a long stretch with sparse random loss (every datagram of the push may be lost), in between a short outage
+            let n = around(rng);
+            let p = [0.01, 0.05, 0.3][rng.gen_range(0..3)];
+            for i in 0..n {
+                acts.push(LAct::Write { big: false, key: rng.gen_bool(0.05), nf: 0 });
+                sn += 1;
+                if rng.gen_bool(p) {
+                    drop(&mut faults, "DATA", sn + pre as i64, 0, 1);
+                }
+                if i == n / 2 && rng.gen_bool(0.5) {
+                    let m = rng.gen_range(1..40);
+                    acts.push(LAct::Outage { n: m, q: 0, r: 0 });
+                    sn += m as i64;
+                }
+            }
+        }
+    }
+    // the reader side forgets the writer and has to ask for everything again, window by window
+    if pre == 0 && rng.gen_bool(0.25) {
+        if rng.gen_bool(0.5) {
+            acts.push(LAct::Round);
+        }
+        acts.push(LAct::Rematch);
+    }
+    // repair rounds with some more loss
+    for _ in 0..rng.gen_range(0..3) {
+        acts.push(LAct::Round);
+        if rng.gen_bool(0.4) {
+            let at = rng.gen_range(1..=sn) + pre as i64;
+            drop(&mut faults, "DATA", at, 0, 2);
+        }
+        if rng.gen_bool(0.3) {
+            faults.push(Fault { at: Addr { dir: "rw".into(), k: "ACKNACK".into(), sn: rng.gen_range(1..=sn + 1) + pre as i64, f: 0, occ: rng.gen_range(1..3) }, what: "drop".into() });
+        }
+    }
+    if rng.gen_bool(0.2) {
+        acts.push(LAct::Clean);
+    }
+    LRunSpec { hist: 0, frag, acts, faults, rounds_after: 7, pre, win: 0, delays: vec![] }
+}
+
+/// A slow link: samples of 2..7 fragments whose datagrams arrive seconds apart (never 9 s or more between two
+/// datagrams, so an assembly in progress is never stale), with some loss and duplication, so that assemblies live long.
+pub fn random_slow_run(rng: &mut StdRng) -> LRunSpec {
+    let frag = [64usize, 48][rng.gen_range(0..2)];
+    let mut acts = vec![];
+    let mut faults = vec![];
+    let n = rng.gen_range(1..4);
+    for sn in 1..=n {
+        let nf = rng.gen_range(2..8usize);
+        acts.push(LAct::Write { big: true, key: false, nf });
+        for f in 1..=nf as u32 {
+            if rng.gen_bool(0.1) {
+                faults.push(Fault { at: Addr { dir: "wr".into(), k: "FRAG".into(), sn, f, occ: 1 }, what: if rng.gen_bool(0.6) { "drop".into() } else { "dup".into() } });
+            }
+        }
+        if rng.gen_bool(0.3) {
+            acts.push(LAct::Write { big: false, key: false, nf: 0 });
+            break;
+        }
+    }
+    let base = [500u32, 1500, 2500, 4000, 6000, 8500][rng.gen_range(0..6)];
+    let delays: Vec<u32> = (0..rng.gen_range(1..12)).map(|_| if rng.gen_bool(0.7) { base } else { rng.gen_range(0..8900) }).collect();
+    LRunSpec { hist: 0, frag, acts, faults, rounds_after: 7, pre: 0, win: 0, delays }
+}
+
+pub fn random_specs_opt(opt: &HashMap<String, String>) -> Vec<LRunSpec> {
+    let mut specs = random_specs(crate::util::get(opt, "seed", 1), crate::util::get(opt, "runs", 100), crate::util::get(opt, "events", 30));
+    // scenarios enumerated by TLC from another module (FragAging.tla), executed with the random runs
+    if let Some(p) = opt.get("extra") {
+        let extra: Vec<LRunSpec> = crate::util::read_jsonl(p);
+        specs.extend(extra);
+    }
+    specs
 }
 
 pub fn random_specs(seed: u64, runs: usize, events: usize) -> Vec<LRunSpec> {
     let mut rng = StdRng::seed_from_u64(seed ^ 0x11AC);
-    (0..runs).map(|_| random_run(&mut rng, events)).collect()
+    let mut rng2 = StdRng::seed_from_u64(seed ^ 0x4B45_59);
+    let mut specs: Vec<LRunSpec> = (0..runs).map(|_| random_run(&mut rng, &mut rng2, events)).collect();
+    // one long run per 16 ordinary ones (at least 8)
+    let mut rng3 = StdRng::seed_from_u64(seed ^ 0x10_46);
+    let n_long = std::cmp::max(8, runs / 16);
+    let long: Vec<LRunSpec> = (0..n_long).map(|_| random_long_run(&mut rng3)).collect();
+    // spread them over the worker threads
+    let step = std::cmp::max(1, specs.len() / n_long);
+    for (i, l) in long.into_iter().enumerate() {
+        let at = std::cmp::min(specs.len(), i * step + i);
+        specs.insert(at, l);
+    }
+    // slow links: one per 8 ordinary runs
+    let mut rng4 = StdRng::seed_from_u64(seed ^ 0x5_10_77);
+    for _ in 0..std::cmp::max(8, runs / 8) {
+        specs.push(random_slow_run(&mut rng4));
+    }
+    specs
 }
